@@ -107,6 +107,10 @@ def case_trace(ctx, inp):
         ctx.branch("non-fifo-completion")
     if isinstance(inp["req"], list) and any(isinstance(r, list) for r in inp["req"]):
         ctx.branch("nested-request")
+    if not out["flat_ids"]:
+        ctx.branch("empty-request")
+    elif all(inp["dag"]["nodes"][i][0] == "d" for i in out["flat_ids"]):
+        ctx.branch("data-only-request")
     if any(nd[0] == "a" for nd in inp["dag"]["nodes"]):
         ctx.branch("alias")
     if out.get("model") and out["model"]["outcome"][0] == "done":
@@ -201,6 +205,16 @@ def case_api(ctx, inp):
     ctx.branch("api:" + sched)
     if cs == -1:
         ctx.branch("api:chunksize=-1")
+    flat0 = list(U.flatten_req(req))
+    if not flat0:
+        ctx.branch("api:empty-request")
+    if sched != "mp":
+        # executed task keys == the tasks reachable from the request, each exactly once
+        execs = sorted(k for k, *_ in U.exec_log())
+        need = sorted(i for i in U.needed_ids(dag, flat0) if dag["nodes"][i][0] == "t")
+        if execs != need:
+            ctx.fail(f"{sched}: executed tasks are not exactly the tasks needed for the request (each once)",
+                     observed=execs, expected=need)
     if not U.same_nesting(req, got):
         ctx.fail(f"{sched}: result not packed in the nesting of the request", observed=repr(got)[:200], expected=want)
     elif U._tuple_to_list(got) != U._tuple_to_list(want):
@@ -252,11 +266,13 @@ def generate(ctx):
     # the recorded defect (fixed): chunksize=-1 with ready empty while a task runs
     yield "trace", {"dag": {"nodes": [["t", [], []], ["t", [], []], ["t", [0, 1], [0, 1]]], "keys": "str", "style": "legacy"},
                     "req": 2, "nw": 2, "cs": -1, "fails": {}, "choices": [0, 0, 0], "seed": 0, "bias": None}
-    for _ in range(ctx.n(1500, 15000)):
+    for _ in range(ctx.n(1000, 15000)):
         yield "trace", U.gen_trace_input(rng, max_n=rng.choice([4, 7, 10, 14]), fail_p=0.0, missing_p=0.03)
     for _ in range(ctx.n(300, 3000)):
         inp = U.gen_trace_input(rng, max_n=rng.choice([3, 6, 10]), missing_p=0.15)
         yield "start", {"dag": inp["dag"], "req": inp["req"]}
+        if rng.random() < 0.1:
+            yield "start", {"dag": inp["dag"], "req": []}
     # exhaustive small spaces: every dag <= 3 nodes + a sample of the 4-node ones (quick) / every dag <= 4
     # nodes + a sample of the 5-node ones (thorough); the last key and all keys requested; EVERY completion order
     for n in range(1, 6 if ctx.thorough() else 5):
@@ -268,15 +284,19 @@ def generate(ctx):
             dags = rng.sample(dags, 150)
         for nodes in dags:
             dag = {"nodes": nodes, "keys": rng.choice(["str", "tuple", "int"]), "style": rng.choice(["legacy", "spec", "mixed"])}
-            for req in ([n - 1], list(range(n))):
+            for req in ([n - 1], list(range(n)), rng.choice([[], [[], []], [[], [0]]])):
                 yield "exh", {"dag": dag, "req": req, "nw": rng.choice([1, 2, 3]), "cs": rng.choice([1, 2, -1]),
                               "fails": {}, "seed": 0, "bias": None, "limit": 300}
     scheds = ["sync", "sync", "threaded", "threaded", "threadpool"]
-    for i in range(ctx.n(120, 1200)):
+    for i in range(ctx.n(80, 1200)):
         inp = U.gen_trace_input(rng, max_n=rng.choice([6, 12, 25, 40]))
         yield "api", {"dag": inp["dag"], "req": inp["req"], "sched": rng.choice(scheds), "nw": rng.choice([1, 2, 3, 4, 8]),
                       "cs": rng.choice([1, 2, 5, -1]), "seed": rng.randrange(1 << 30),
                       "entry": rng.choice(["dask.get", "get_sync"])}
+    for sched in ("sync", "sync", "threaded", "threaded", "threadpool", "sync"):
+        inp = U.gen_trace_input(rng, max_n=rng.choice([4, 9]))
+        yield "api", {"dag": inp["dag"], "req": rng.choice([[], [[], []], [[]]]), "sched": sched, "nw": rng.choice([1, 2, 4]),
+                      "cs": rng.choice([1, 2, -1]), "seed": 1, "entry": rng.choice(["dask.get", "get_sync"])}
     for i in range(ctx.n(3, 12)):
         inp = U.gen_trace_input(rng, max_n=rng.choice([5, 10]))
         inp["dag"]["keys"] = rng.choice(["str", "tuple"])
